@@ -62,10 +62,13 @@ CLAIMS = {
         "tier, debug build: every debug assertion is proved unreachable from the public entries except a reviewed table "
         "of value-level ones (DBGASSERT1). The implicit checks of range indexing, split_at and rotate (a <= b <= len) are "
         "decided like SUB1, with symbolic slice lengths and inferred postconditions (translate_range_bounds: start <= end <= "
-        "len) — 35 of 51 obligations on the reviewed tree, the rest undecided (RIDX1). Not decided: single-element bounds "
-        "checks (counted; infeasible under INV), loop termination.",
-        note="Assumes INV (checked by INV1 under C04) and core's RangeBounds impls; single-element bounds checks and "
-        "termination are not judged; SUB1/RIDX1 report only obligations over transparent operands.",
+        "len) — 35 of 51 obligations on the reviewed tree, the rest undecided (RIDX1). Every loop of the crate (4) has a "
+        "classified progress argument (TERM1): exit by a std iterator's None; `while size < B` whose body increases size by "
+        "one on every path under the loop's facts (callee paths projected); a counter moved towards its bound by an entailed "
+        "step >= 1 — the back-fill step of Drain::drop is value-level and listed as undecided; an exit test over operands "
+        "the body never changes is reported. Not decided: single-element bounds checks (counted; infeasible under INV).",
+        note="Assumes INV (checked by INV1 under C04) and core's RangeBounds impls; single-element bounds checks are "
+        "not judged; SUB1/RIDX1 report only obligations over transparent operands.",
         ref="DESIGN.md §5 C11",
     ),
     "C06": dict(
